@@ -728,6 +728,8 @@ class Note:
                 result += f".oabs({self.octave})"
         elif self.type == 'x':
             result = f"{self.type}{self.val}"
+            if self.octave != 0:
+                result += f".o({self.octave})"
         else:
             result = f"{self.type}"
 
